@@ -72,6 +72,25 @@ func Props(c *Ctx) map[string]*Prop {
 				func(c *Ctx) (map[*core.Func]bool, map[*core.Func]bool) { return c.downstreamScope(), nil }),
 			rulePF2(), rulePF3("printer", "interp", "ast", "pattern"), rulePF4("interp"), rulePF5(), ruleYY1("interp"), ruleEF7(), ruleFLD1(), ruleFLD2(), ruleCC1("interp"),
 		}})
+	add(&Prop{ID: "C12",
+		Explanation: "Decides the translation-table side of pattern matching: every regular-expression metacharacter (oracle: regexp.QuoteMeta) is escaped or given pattern meaning in each of compile's three contexts, wild cards run in dot-all mode, the alternatives sit in exactly one capture group, anchors follow the mode bits exactly, and no index/slice in Match/compile can panic on any pattern. Which prefix/suffix is selected (shortest/longest) and bracket-expression semantics are value-level and not decided.",
+		Assumptions: []string{"RE2 syntax as implemented by package regexp is the oracle for what needs escaping"},
+		Rules: []Rule{ruleTB1(), ruleTB2(),
+			pf1Rule("no index or slice in Match/compile can panic, whatever the pattern", 10,
+				func(c *Ctx) (map[*core.Func]bool, map[*core.Func]bool) { return c.scopeOf("pattern.Match"), nil }),
+		}})
+	add(&Prop{ID: "C16",
+		Explanation: "Decides structural necessary conditions of pathname expansion on every path of Glob: directory test before a separator is appended, existence test in the literal arm, sort before return, agreement of the dot-file literal with compile's output and of the three pattern-special character sets, no panic. Which names match is value-level and not decided.",
+		Assumptions: []string{"os.File.Readdirnames contract (non-empty slice when err == nil)"},
+		Rules: []Rule{ruleGL(), ruleTB2(), ruleTB4(),
+			pf1Rule("no index or slice reachable from Glob can panic", 10,
+				func(c *Ctx) (map[*core.Func]bool, map[*core.Func]bool) { return c.scopeOf("pattern.Glob"), nil }),
+		}})
+	add(&Prop{ID: "C11",
+		Explanation: "Decides the table side of C arithmetic: operator spellings the tokeniser recognises = the ops table (TB9a); each operator case computes `l S r` on signed 64-bit operands in that order, unary and truth tests as C defines them, constants parsed with base 0 (TB9b); the grammar's levels are C's precedence ladder with C's associativity (GR5) and the compiled tables are the grammar's (GR1, GR2); run-time faults are recovered into ArithExprError (PF5); and whether side effects are executed inside reductions that C would skip (AR). Numeric results are not computed.",
+		Assumptions: []string{"analysed build configuration linux/amd64 (int is 64-bit); the thorough tier re-checks the width under linux/386", "C's operator table (ISO C 6.5) is the external oracle"},
+		Rules: []Rule{ruleGR1("interp"), ruleGR2("interp"), ruleGR5(), ruleTB9a("interp", "interp.(*lexer).lexOp", 30), ruleTB9b(), rulePF5(), ruleEF7(), ruleAR()}})
+	add(&Prop{ID: "DEVT", Explanation: "dev", Rules: []Rule{ruleTB5(), ruleTB6(), ruleTB7(), ruleTB8(), ruleTB10(), ruleTB13(), ruleTB9a("parser", "parser.(*lexer).scanOp", 15)}})
 	add(&Prop{ID: "DEVG", Explanation: "dev", Rules: []Rule{ruleGR1("parser", "interp"), ruleGR2("parser", "interp"), ruleGR3(), ruleGR4(), ruleGR5(), ruleGR6()}})
 	return m
 }
